@@ -11,7 +11,7 @@
 (* The POSTCONDITION requires that the whole trace was consumed; the       *)
 (* runner decides the exit status from the JUDGE lines.                    *)
 (***************************************************************************)
-EXTENDS TauRule, TauKnown, Json, IOUtils, TLC
+EXTENDS TauRule, TauKnown, TauIdent, Json, IOUtils, TLC
 
 Rec == ndJsonDeserialize(IOEnv.TRACE)
 
@@ -121,7 +121,30 @@ TrReload ==
           /\ objs' = Append(objs, [sw |-> <<>>, st |-> IF e.out = "ok" THEN "ok" ELSE "dead"])
           /\ UNCHANGED <<cur, phase, den, prints>>
 
-TrNext == TrCase \/ TrSkip \/ TrLoad \/ TrLoad2 \/ TrOpt \/ TrMatch \/ TrTri \/ TrValidate \/ TrSer \/ TrReload
+(* ----- the textual layers on their own (C04, C07, C15) ----- *)
+StringKinds == {"any", "contains", "suffix", "prefix", "exact"}
+TrIdent ==
+  /\ IsEv("ident") /\ Adv /\ UNCHANGED rvars
+  /\ LET m == IntoId(cur.text, cur.icb, {}) IN
+     IF e.out = "panic" THEN Bad("ident_panic", [out |-> e.out])
+     ELSE IF m.st = "ok" /\ (e.out # "ok" \/ e.k # m.k \/ e.ic # m.ic)
+          THEN Bad("ident_parse", [out |-> e.out, k |-> e.k, ic |-> e.ic, want |-> m])
+     ELSE IF m.st = "ok" /\ m.k \in StringKinds /\ e.a # m.a
+          THEN Bad("ident_parse", [out |-> e.out, k |-> e.k, a |-> e.a, want |-> m])
+     ELSE IF m.st = "err" /\ e.out # "err" THEN Bad("ident_parse", [out |-> e.out, k |-> e.k, want |-> m])
+     ELSE IF m.st = "unk" /\ e.out = "ok" /\ e.k # m.k THEN Bad("ident_parse", [out |-> e.out, k |-> e.k, want |-> m])
+     ELSE Good
+
+(* arbitrary text / YAML shapes: loading and every textual layer return a value or an error *)
+TrFload ==
+  /\ IsEv("fload") /\ Adv /\ UNCHANGED rvars
+  /\ IF e.out \in {"ok", "err"} THEN Good ELSE Bad("load_panic", [out |-> e.out, via |-> e.via])
+TrCore ==
+  /\ IsEv("core") /\ Adv /\ UNCHANGED rvars
+  /\ IF e.out \in {"ok", "err"} THEN Good
+     ELSE Bad(IF e.f \in {"optimise", "validate"} THEN "accepted_panic" ELSE "load_panic", [out |-> e.out, f |-> e.f])
+
+TrNext == TrIdent \/ TrFload \/ TrCore \/ TrCase \/ TrSkip \/ TrLoad \/ TrLoad2 \/ TrOpt \/ TrMatch \/ TrTri \/ TrValidate \/ TrSer \/ TrReload
 
 TrSpec == TrInit /\ [][TrNext]_tvars
 
